@@ -300,6 +300,86 @@ static void run_case(seqx::Runner &R, int pol, const std::vector<int> &seq) {
     }
 }
 
+// stack_storage with a pre-initialised size state ("can be preinitialized with some arbitrary constant"): the caller's
+// buffer has exactly the size the storage asks for; states around the frame size decide between "fits" and "heap".
+// ASan guards both ends of the exactly sized buffer.
+static size_t g_frame_size[3];
+static void stack_presize_case(seqx::Runner &R, int cls, int delta) {
+    char nm[96];
+    snprintf(nm, sizeof nm, "stack-presize;cls=%d;delta=%d;", cls, delta);
+    R.begin(nm);
+    g_R = &R;
+    {
+        seqx::NoCount nc;
+        g_log.clear();
+    }
+    g_spy_allocs = g_spy_deallocs = 0;
+    int64_t base = seqx::live_allocs();
+    {
+        size_t sz = g_frame_size[cls];
+        size_t state = delta == -1000 ? 0 : (size_t)((long)sz + delta);
+        size_t init = state;
+        for (int round = 0; round < 2 && !R.case_fail; round++) {  // second round: what the first one learned
+            std::unique_ptr<Slot> s;
+            std::unique_ptr<Spy<cocls::stack_storage>> st;
+            std::unique_ptr<std::vector<char>> buf;
+            size_t want;
+            {
+                seqx::NoCount nc;
+                s.reset(new Slot());
+                st.reset(new Spy<cocls::stack_storage>(state));
+                want = *st;
+                buf.reset(new std::vector<char>(want ? want : 1));
+                *static_cast<cocls::stack_storage *>(st.get()) = buf->data();
+            }
+            s->gate_p = s->gate.get_promise();
+            R.step();
+            uint64_t before = seqx::news();
+            start_coro(*st, s.get(), cls, 7 + round);
+            uint64_t news = seqx::news() - before;
+            bool fits = want >= sz + 1;  // frame plus the heap/stack flag byte
+            if (news != (fits ? 0u : 1u))
+                R.fail("storage/stack-presize", "stack_storage with a %zu byte buffer and a %zu byte frame performed %lu heap allocations (round %d, initial state %zu)", want, sz,
+                       (unsigned long)news, round, init);
+            if (!fits && state < sz + 1) R.fail("storage/stack-not-learned", "after a heap fallback for a %zu byte frame the shared state is %zu: the next frame will not fit either", sz, state);
+            s->gate_p();
+            if (!s->done || !s->canary_ok) R.fail("storage/frame-memory-clobbered", "frame did not finish intact");
+            seqx::NoCount nc;
+            s.reset();
+            st.reset();
+            buf.reset();
+        }
+        if (!R.case_fail && g_spy_allocs != g_spy_deallocs) R.fail("storage/dealloc-count", "%d frames allocated but %d deallocated", g_spy_allocs, g_spy_deallocs);
+        R.outcome(seqx::mix((uint64_t)cls, (uint64_t)(delta + 2000)));
+        R.state(seqx::hash_str(nm));
+    }
+    {
+        seqx::NoCount nc;
+        g_log.clear();
+        g_log.shrink_to_fit();
+    }
+    if (!R.case_fail && seqx::live_allocs() != base) R.fail("storage/heap-fallback-balance", "%ld heap blocks of the policy not released exactly once", (long)(seqx::live_allocs() - base));
+    R.end(true);
+}
+static void learn_frame_sizes(seqx::Runner &R) {
+    seqx::NoCount nc;
+    g_R = &R;
+    for (int cls = 0; cls < 3; cls++) {
+        size_t state = 0;
+        Slot s;
+        s.gate_p = s.gate.get_promise();
+        Spy<cocls::stack_storage> st(state);
+        char dummy[1];
+        static_cast<cocls::stack_storage &>(st) = dummy;
+        g_log.clear();
+        start_coro(st, &s, cls, 1);
+        g_frame_size[cls] = g_log.back().sz;  // what the coroutine asked the policy for
+        s.gate_p();
+        g_log.clear();
+    }
+}
+static const int presize_deltas[] = {-1000, -9, -8, -2, -1, 0, 1, 2, 7, 8, 9, 64};
+
 static void dfs(seqx::Runner &R, int pol, int depth, std::vector<int> &seq, int nlive) {
     if (R.stop()) return;
     if ((int)seq.size() == depth) {
@@ -325,6 +405,10 @@ static void dfs(seqx::Runner &R, int pol, int depth, std::vector<int> &seq, int 
 
 void seqx_run(seqx::Runner &R, const std::string &tier) {
     seq_warmup();
+    learn_frame_sizes(R);
+    for (int cls = 0; cls < 3; cls++)
+        for (int d : presize_deltas)
+            if (R.next_case()) stack_presize_case(R, cls, d);
     for (int pol = 0; pol < NPOL; pol++) {
         std::vector<int> seq;
         dfs(R, pol, tier == "quick" ? 5 : 7, seq, 0);
@@ -333,6 +417,12 @@ void seqx_run(seqx::Runner &R, const std::string &tier) {
 
 void seqx_replay(seqx::Runner &R, const std::string &c) {
     seq_warmup();
+    if (c.rfind("stack-presize", 0) == 0) {
+        learn_frame_sizes(R);
+        R.next_case();
+        stack_presize_case(R, atoi(c.c_str() + c.find("cls=") + 4), atoi(c.c_str() + c.find("delta=") + 6));
+        return;
+    }
     int pol = atoi(c.c_str() + c.find("policy=") + 7);
     std::vector<int> seq;
     std::stringstream ss(c.substr(c.find("ops=") + 4));
